@@ -106,6 +106,11 @@ env_frame!("i16", i16, i16, false, E32, 1.0 / 32768.0, -32767.0 / 32768.0, 32767
 env_frame!("[i16;2]", [i16; 2], i16, false, E32, 1.0 / 32768.0, -32767.0 / 32768.0, 32767.0 / 32768.0);
 env_frame!("u8", u8, u8, false, E32, 1.0 / 128.0, -127.0 / 128.0, 127.0 / 128.0);
 env_frame!("i32", i32, i32, false, E32, 1.0 / 2147483648.0, -0.999_999, 0.999_999);
+env_frame!("[f32;9]", [f32; 9], f32, true, E32, 0.0, -1.0, 1.0);
+env_frame!("[i16;12]", [i16; 12], i16, false, E32, 1.0 / 32768.0, -32767.0 / 32768.0, 32767.0 / 32768.0);
+env_frame!("[f32;40]", [f32; 40], f32, true, E32, 0.0, -1.0, 1.0);
+env_frame!("u16", u16, u16, false, E32, 1.0 / 32768.0, -32767.0 / 32768.0, 32767.0 / 32768.0);
+env_frame!("[u8;2]", [u8; 2], u8, false, E32, 1.0 / 128.0, -127.0 / 128.0, 127.0 / 128.0);
 
 #[derive(Clone, Copy, PartialEq, Debug)]
 enum Kind {
@@ -504,7 +509,14 @@ where
                             0 => base,
                             1 => -base,
                             2 => base * 0.5,
-                            _ => base,
+                            // a channel that moves against channel 0
+                            _ => {
+                                if chans > 1 && ch > 0 {
+                                    (F::hi() - base.abs()).max(0.0)
+                                } else {
+                                    base
+                                }
+                            }
                         };
                         v.clamp(F::lo(), F::hi())
                     })
@@ -636,7 +648,7 @@ impl Scenario for EnvelopeScenario {
         ]
     }
     fn rule(&self) -> &'static str {
-        "case = (format of 7, detector full/positive/negative half wave / from_rectifier / rms(window), direct or adaptor with finite source, \
+        "case = (format of 12 (1 to 40 channels), detector full/positive/negative half wave / from_rectifier / rms(window), direct or adaptor with finite source, \
          initial attack/release incl. 0 and 1e6, input shape rising/falling/constant stretches/alternating/boundaries, seeded frame / \
          set_attack / set_release / clone schedule); non-trivial = at least one fault kind fired and at least one operation after the \
          first frame; distinct = hash of (ops, outputs)"
@@ -665,7 +677,7 @@ impl Scenario for EnvelopeScenario {
         }
     }
     fn run(&self, src: &mut Source, obs: &mut Observer) -> Result<(), Violation> {
-        let fmt = src.cfg("frame", 0, 6, |r| r.range(0, 6));
+        let fmt = src.cfg("frame", 0, 11, |r| r.range(0, 11));
         obs.note(fmt as u64);
         match fmt {
             0 => drive::<f32>(src, obs),
@@ -674,7 +686,12 @@ impl Scenario for EnvelopeScenario {
             3 => drive::<i16>(src, obs),
             4 => drive::<[i16; 2]>(src, obs),
             5 => drive::<u8>(src, obs),
-            _ => drive::<i32>(src, obs),
+            6 => drive::<i32>(src, obs),
+            7 => drive::<[f32; 9]>(src, obs),
+            8 => drive::<[i16; 12]>(src, obs),
+            9 => drive::<u16>(src, obs),
+            10 => drive::<[u8; 2]>(src, obs),
+            _ => drive::<[f32; 40]>(src, obs),
         }
     }
 }
